@@ -7,6 +7,8 @@ import PnaVerif.Model.Pipeline
 import PnaVerif.Model.Split
 import PnaVerif.Model.Solid
 import PnaVerif.Model.Cli.Text
+import PnaVerif.Model.Cli.Fault
+import PnaVerif.Model.Cli.Sched
 import PnaVerif.Model.Cli.Wire
 /-
   Line-protocol driver: one request per line on stdin, one canonical answer per line on stdout.
@@ -68,6 +70,29 @@ def parseNatList (s : String) : Option (List Nat) :=
 
 def bytesListS (l : List Bytes) : String :=
   if l.isEmpty then "." else ",".intercalate (l.map toHexW)
+
+def shapeOf : String → Option Cli.Sched.Shape
+  | "scopePerItem" => some .scopePerItem | "scopeAroundLoop" => some .scopeAroundLoop | "detached" => some .detached
+  | "single" => some .single | "parIterCollect" => some .parIterCollect | "parIterUnordered" => some .parIterUnordered
+  | "unknown" => some .unknown | _ => none
+
+/-- one pseudo-random schedule of the transition system: at each step the enabled events are
+    enumerated and one is chosen by an LCG; runs until nothing is enabled -/
+def schedRun (sh : Cli.Sched.Shape) (n : Nat) : Nat → Nat → Cli.Sched.St → Cli.Sched.St
+  | 0, _, s => s
+  | fuel+1, seed, s =>
+    let evs : List Cli.Sched.Ev := (if s.next < n && Cli.Sched.canSpawn sh s then [Cli.Sched.Ev.spawn] else []) ++ s.running.map Cli.Sched.Ev.finish
+    if evs.isEmpty then s
+    else
+      let seed' := (seed * 6364136223846793005 + 1442695040888963407) % 18446744073709551616
+      let e := evs.getD ((seed' / 65536) % evs.length) Cli.Sched.Ev.spawn
+      match Cli.Sched.step sh n s e with
+      | some s' => schedRun sh n fuel seed' s'
+      | none => s
+
+def faultS (w w' : Cli.Fault.World) (ok : Bool) : String :=
+  if ok then s!"ok n={w'.archive.items.length} terminated={w'.archive.terminated}"
+  else if w'.archive == w.archive then "fail unchanged" else s!"fail changed terminated={w'.archive.terminated} n={w'.archive.items.length}"
 
 def strOfBytes (b : Bytes) : Option (List Char) :=
   (String.fromUTF8? (ByteArray.mk b.toArray)).map String.toList
@@ -198,6 +223,31 @@ def handle (line : String) : String :=
     match ofHex h with
     | some b => "ok " ++ toHexW (Cli.Text.utf8 (if enc == "2" then Cli.Text.showHex b else Cli.Text.showB64 b))
     | none => "bad-op"
+  | ["fault", "append", n, pat] =>
+    match n.toNat? with
+    | some n =>
+      let w : Cli.Fault.World := { archive := ⟨List.range n, true⟩ }
+      let inputs := pat.toList.mapIdx fun i c => if c == '1' then some (1000 + i) else none
+      let (w', ok) := Cli.Fault.appendCmd w (if pat == "-" then [] else inputs)
+      faultS w w' ok
+    | none => "bad-op"
+  | ["fault", "rewrite", n, epat, xpat] =>
+    match n.toNat? with
+    | some n =>
+      let w : Cli.Fault.World := { archive := ⟨List.range n, true⟩ }
+      let ep := (if epat == "-" then [] else epat.toList).toArray
+      let f : Nat → Option (List Nat) := fun x => match ep[x]? with
+        | some 'x' => none | some 'd' => some [] | _ => some [x]
+      let extra := (if xpat == "-" then [] else xpat.toList).mapIdx fun i c => if c == '1' then some (1000 + i) else none
+      let (w', ok) := Cli.Fault.rewriteCmd w f extra
+      faultS w w' ok
+    | none => "bad-op"
+  | ["sched", shape, n, seed] =>
+    match shapeOf shape, n.toNat?, seed.toNat? with
+    | some sh, some n, some seed =>
+      let s := schedRun sh n (4 * n + 8) seed {}
+      s!"ok final={s.next == n && s.running.isEmpty} order=" ++ ",".intercalate (s.chan.map toString)
+    | _, _, _ => "bad-op"
   | ["solid.iter", h, term] =>
     match ofHex h, (if term == "none" then some none else (parseErr term).map some) with
     | some b, some t =>
